@@ -76,6 +76,35 @@ def step (cfg : Cfg) (st : St) : List String → St × String
     match slot.toNat?, len.toNat?, seed.toNat? with
     | some s, some l, some sd => applyOp cfg st s (patBytes sd l)
     | _, _, _ => (st, "bad-op")
+  -- one request of `n` zero bytes (n ≥ 128, too long for the model to execute byte by byte):
+  -- answer = first 64 and last 64 keystream bytes, obtained through the model's own seek/apply at
+  -- the two ends (by `CC.Thm.C02.rechunk`/`history_refines` the bytes of a request depend only on
+  -- their absolute positions); the instance is left at position p + n like the real one.
+  | ["chacha", "bigapply", slot, len] =>
+    match slot.toNat?, len.toNat? with
+    | some s, some n =>
+      match getSlot st.ciphers s with
+      | none => (st, "bad-op")
+      | some c =>
+        if n < 128 then (st, "bad-op") else
+        match Cipher.tryCurrentPos cfg.profile c .u128 with
+        | .ok (some p) =>
+          if p + n > c.v.limit then (st, "err") else
+          match Cipher.trySeek cfg.mach c (p : Int) with
+          | .ok (c1, true) =>
+            match Cipher.tryApply cfg.mach cfg.profile c1 (List.replicate 64 0) with
+            | .ok (c2, some first) =>
+              match Cipher.trySeek cfg.mach c2 ((p + n - 64 : Nat) : Int) with
+              | .ok (c3, true) =>
+                match Cipher.tryApply cfg.mach cfg.profile c3 (List.replicate 64 0) with
+                | .ok (c4, some last) =>
+                  ({ st with ciphers := setSlot st.ciphers s c4 }, hexOfBytes first ++ ":" ++ hexOfBytes last)
+                | _ => (st, "model-error")
+              | _ => (st, "model-error")
+            | _ => (st, "model-error")
+          | _ => (st, "model-error")
+        | _ => (st, "model-error")
+    | _, _ => (st, "bad-op")
   | ["chacha", "pos", slot, ty] =>
     match slot.toNat?, seekTyOfName ty with
     | some s, some t =>
